@@ -770,6 +770,13 @@ func (s *State) Commit(repo gitstore.Storer, commitMessage string, createRSLEntr
 				return repo.ResetDueToError(err, PolicyStagingRef, originalCommitID)
 			}
 
+			// The reference did not exist before this operation: remove it
+			// again so that it does not point to a commit the RSL has no
+			// entry for.
+			if delErr := repo.DeleteReference(PolicyStagingRef); delErr != nil {
+				return errors.Join(err, delErr)
+			}
+
 			return err
 		}
 	}
@@ -865,6 +872,13 @@ func Apply(ctx context.Context, repo gitstore.Storer, signRSLEntry bool) error {
 	if err := rsl.NewReferenceEntry(PolicyRef, policyStagingTip).Commit(repo, signRSLEntry); err != nil {
 		if !policyTip.IsZero() {
 			return repo.ResetDueToError(err, PolicyRef, policyTip)
+		}
+
+		// There was no policy reference before this operation: remove the one
+		// just created, otherwise it stays set without an RSL entry and every
+		// later Apply is refused as out of sync.
+		if delErr := repo.DeleteReference(PolicyRef); delErr != nil {
+			return errors.Join(err, delErr)
 		}
 
 		return err
